@@ -101,6 +101,8 @@ func strCaseValue(k kase) rt.Value {
 	return rt.TableValue(t)
 }
 
+var cpuLimit uint64
+
 func runBatch(out *bufio.Writer, batch []kase, driver string, mk func(kase) rt.Value) {
 	for len(batch) > 0 {
 		tbl := rt.NewTable()
@@ -108,7 +110,7 @@ func runBatch(out *bufio.Writer, batch []kase, driver string, mk func(kase) rt.V
 			tbl.Set(rt.IntValue(int64(i+1)), mk(k))
 		}
 		res := hx.RunLuaCase(hx.LuaCase{Id: "b", Src: []byte(driver), Mode: "t", Chunk: "driver",
-			Args: []rt.Value{rt.TableValue(tbl)}})
+			Args: []rt.Value{rt.TableValue(tbl)}, Cpu: cpuLimit, Limited: cpuLimit > 0})
 		// one case = the events up to the next empty event "-"
 		n := 0
 		var evs []string
@@ -147,6 +149,10 @@ func main() {
 		if n, err := strconv.Atoi(os.Args[1]); err == nil && n > 0 {
 			bsize = n
 		}
+	}
+	if len(os.Args) > 2 && strings.HasPrefix(os.Args[2], "cpu=") {
+		// run every batch under a CPU limit (used for calls the model predicts never to terminate)
+		cpuLimit, _ = strconv.ParseUint(os.Args[2][4:], 10, 64)
 	}
 	in := bufio.NewScanner(os.Stdin)
 	in.Buffer(make([]byte, 1<<20), 1<<28)
